@@ -222,7 +222,7 @@ def run_trace(cfg, trace, kinds, init_env=None, observe=None, timeout=10.0):
             counts[self.i] += 1
             # what this task can read when it starts
             snap = {}
-            for name in cfg.names:
+            for name in list(cfg.names) + (['shared'] if getattr(cfg, 'shared', False) else []):
                 try:
                     d = env.dictionary.get(name)
                     snap[name] = None if d is None else dict(d)
@@ -231,6 +231,8 @@ def run_trace(cfg, trace, kinds, init_env=None, observe=None, timeout=10.0):
             reads.setdefault(self.i, []).append(snap)
             kind = KINDS[kinds[self.i]]
             upd_ok = {self.name: {'result': payloads[self.i]}}
+            if getattr(cfg, 'shared', False):
+                upd_ok['shared'] = {self.name: payloads[self.i]}
             if kind == 'done':
                 return upd_ok, TaskStatus.DONE
             if kind == 'failed':
